@@ -137,7 +137,7 @@ def x_c12(run):
 
 # ---- frame layer ---------------------------------------------------------------------------
 
-HANGS = re.compile(r"HANG|PANIC|CRASH|DRIVER-DIED|BADCOUNT")
+HANGS = re.compile(r"HANG|PANIC|CRASH|DRIVER-DIED|BADCOUNT|DOUBLE-PUT|WROTE-BEHIND-LEN|SINK-CHANGED-AFTER-CLOSE-RETURNED")
 
 def notes_of(il):
     parts = il.split(" ; ")
@@ -342,6 +342,10 @@ def x_c20(run):
     from .c20 import x_c20 as f
     f(run)
 
+POOL_FAM = dict(family="pool", variant="asm", kview=lambda l: l.split(" ; ")[0].strip(), nontrivial=lambda c, i: "/" in i,
+                judge=j_notes(r"$^", "", ""))
+T_POOL = T("Pool", "reach_inv", "get_size", "inv_put", "inv_get", "inv_drop", "put_foreign", "put_slice",
+           kind="the shared block-buffer pools keep their size classes after every Get/Put/drop history (what the Reader's cap(b.data) bound rests on)")
 CR_FAM = dict(family="cr", variant="asm", kview=kview_w, nontrivial=nontrivial_sess,
               judge=j_and(j_orc("frame"), j_notes(r"NO-PROGRESS|BADCOUNT|READ-AFTER-EOF|SOURCE-ERROR-NOT-PASSED|NO-EOF", "compressing reader contract broken",
                                                   "n<=len(p), progress, one valid frame, io.EOF, source error passed through")))
@@ -381,13 +385,13 @@ PROPS = {
     "C20": dict(runs=[], extra=[x_c20], theorems=T_C20 + T("C02", "c02_roundtrip"),
                 rule="each case = (flag set, generated file, mode, file or stdin/stdout); every case is non-trivial; distinct = distinct case description"),
     "C02": dict(runs=[FW("fw", judge=j_c02w), FR("fr", judge=j_c02r)], theorems=T("C02", "c02_roundtrip", "c02_roundtrip_read", "c02_roundtrip_read_consumed", "c02_read_no_error", "written_lenient") + T("C09full", "c09_writer_all", ns="C09")),
-    "C05": dict(runs=[FR("frmut", judge=j_c05), FR("fr", judge=j_c05)], theorems=T_C05),
+    "C05": dict(runs=[FR("frmut", judge=j_c05), FR("fr", judge=j_c05), POOL_FAM], theorems=T_C05 + T_POOL),
     "C06": dict(runs=[FR("frtrunc", judge=j_c06)], theorems=T_C06 + T_C06r),
-    "C07": dict(runs=[FR("frhost", judge=j_c07), FR("frmut", judge=j_c07)], theorems=T_C07 + T("C19", "c19_bad_magic") + T("C08", "R.progress", "R.terminates", "R.noleak")),
+    "C07": dict(runs=[FR("frhost", judge=j_c07), FR("frmut", judge=j_c07), POOL_FAM], theorems=T_POOL + T_C07 + T("C19", "c19_bad_magic") + T("C08", "R.progress", "R.terminates", "R.noleak")),
     "C09": dict(runs=[FW("fw", judge=j_c09), CR_FAM], theorems=T_C09 + T_C09leg + T_C18),
     "C15": dict(runs=[FW("fwfail", judge=j_c15w), FR("frfail", judge=j_c15r)], theorems=T_C15 + T_C15r),
     "C16": dict(runs=[FR("fr", judge=j_c16)], theorems=T("C16", "c16_writeTo", "c16_read", "c16_read_no_error", kind=_K64)),
-    "C17": dict(runs=[FW("fwlife", judge=j_c17w), FR("fr", judge=j_c17r)], theorems=T_C17),
+    "C17": dict(runs=[FW("fwlife", judge=j_c17w, env={"VERIF_SCHED": "6"}), FR("fr", judge=j_c17r)], theorems=T_C17),
     "C01": dict(runs=[dict(CMP, judge=j_c01)], theorems=T_C01rt + T_FAST + T_HC),
     "C03": dict(runs=[dict(DEC_ASM, judge=j_c03), dict(DEC_GO, judge=j_c03), dict(GUARD_ASM, judge=j_c03), dict(GUARD_GO, judge=j_c03)], theorems=T("C04go", "c03_go") + T("C03asm", "c03_asm")),
     "C04": dict(runs=[dict(DEC_ASM, judge=j_c04), dict(DEC_GO, judge=j_c04)], theorems=T_GO + T_ASM),
